@@ -3,7 +3,7 @@
 From FMP Require Import Base.Bytes Base.Lts Model.Events Model.Skeleton Model.Props Model.Dispatch Model.Receiver
      Model.Writer Model.Generated Model.Msgpack Model.Frame
      Proofs.DispatchProofs Proofs.ReceiverProofs Proofs.WriterProofs Proofs.MsgpackProofs Proofs.FrameProofs
-     Proofs.SkeletonProofs.
+     Proofs.SkeletonProofs Proofs.ReceiverProgress Proofs.WriterProgress.
 Open Scope Z_scope.
 
 (* no caller ever observes another call's reply, whatever the order and delay in which replies arrive: every result
@@ -54,9 +54,72 @@ Example ex_monitor_rejects :
     c01_no_crosstalk [AWrite (mkFI KCall 0 1 true); AWrite (mkFI KCall 1 2 true); AFeed (mkFI KResp 1 2 true) true; AResult 1 2] = false.
 Proof. vm_compute. reflexivity. Qed.
 
+(* ---------- exactly one handler invocation per delivered request (serving side, every schedule) ---------- *)
+(* no request is handed to a handler twice *)
+Theorem C01_never_invoked_twice : forall sk ls st n,
+    run (rstep sk) rinit ls = Some st -> (count_ev (invoked_for n) (rtrace st) <= 1)%nat.
+Proof. exact recv_never_invoked_twice. Qed.
+(* every invocation is for a request fed earlier, with exactly that request's kind, seqno and argument nonce *)
+Theorem C01_invocation_has_request : forall sk ls st h fi,
+    run (rstep sk) rinit ls = Some st -> In (AHStart h fi) (rtrace st) ->
+    exists pre post, rtrace st = pre ++ AHStart h fi :: post /\ In (AFeed fi true) pre.
+Proof. exact recv_invocation_has_request. Qed.
+(* whenever the receive goroutine is back at reading and the transport is not stopped, every request delivered so far has
+   been handed to a handler exactly once *)
+Theorem C01_invoked_exactly_once : forall sk ls st,
+    run (rstep sk) rinit ls = Some st -> stopped st = false -> recv st = RIdle -> c01_invoked_once (rtrace st) = true.
+Proof. exact recv_invoked_exactly_once. Qed.
+(* a decoded request is always handed over while the transport is not stopped *)
+Theorem C01_handoff_serves_unless_stopped : forall sk ls st h,
+    run (rstep sk) rinit ls = Some st -> recv st = RBegin h -> stopped st = false ->
+    exists st', rstep sk st RBeginRv = Some st' /\
+                In (AHStart h (match hfind h (handlers st) with Some x => req_info x | None => mkFI Events.KBad 0 0 false end)) (rtrace st').
+Proof. exact recv_handoff_serves_unless_stopped. Qed.
+
+(* ---------- exactly one reply (send side, every schedule) ---------- *)
+(* no frame - reply, call, notification - is written twice *)
+Theorem C01_written_at_most_once : forall sk ss ls st c,
+    fresh_ok ss = true -> run (step sk) (init ss) ls = Some st -> (writes_of c (trace st) <= 1)%nat.
+Proof. exact writer_at_most_once. Qed.
+(* a reply (or notification) that returned success had its frame written exactly once; one that was never handed to the
+   writer wrote nothing *)
+Theorem C01_ok_means_written_once : forall sk ss ls st c s,
+    fresh_ok ss = true -> run (step sk) (init ss) ls = Some st -> find c (senders st) = Some s ->
+    s_kind s <> SCall -> s_kind s <> SCancelFrame -> s_pc s = PRet ROk -> writes_of c (trace st) = 1%nat.
+Proof. exact writer_ok_means_written_once. Qed.
+Theorem C01_unhanded_writes_nothing : forall sk ss ls st c s,
+    fresh_ok ss = true -> run (step sk) (init ss) ls = Some st -> find c (senders st) = Some s ->
+    s_handed s = false -> writes_of c (trace st) = 0%nat.
+Proof. exact unhanded_writes_nothing. Qed.
+(* progress: from ANY reachable state a started reply (or notification) that has not returned can return within 8 steps of
+   its own and of the writer goroutine; and if nothing is wrong - its frame fits, its context has not ended, the transport is
+   neither closing nor stopped, the connection accepts writes - it returns success, i.e. exactly one reply frame is written *)
+Theorem C01_reply_can_complete : forall ss ls st c s,
+    fresh_ok ss = true -> run (step expected_skeleton) (init ss) ls = Some st ->
+    find c (senders st) = Some s -> (s_kind s = SNotify \/ s_kind s = SReply) ->
+    s_pc s <> PNew -> (forall r, s_pc s <> PRet r) ->
+    exists ls' st' s' r, (length ls' <= 8)%nat /\ forallb (own_label c) ls' = true /\
+       run (step expected_skeleton) st ls' = Some st' /\ find c (senders st') = Some s' /\ s_pc s' = PRet r /\
+       (s_size_ok s = true -> s_ctx s = false -> done_closed st = false -> stop_closed st = false -> conn_ok st = true ->
+        writer_alive st = true -> r = ROk).
+Proof. exact writer_sender_can_finish. Qed.
+Theorem C01_writer_alive_until_closed : forall sk ss ls st,
+    fresh_ok ss = true -> run (step sk) (init ss) ls = Some st -> done_closed st = false -> writer_alive st = true.
+Proof. exact writer_alive_until_closed. Qed.
+
+
 Print Assumptions C01_no_crosstalk.
 Print Assumptions C01_seqnos_distinct.
 Print Assumptions C01_registered_while_outstanding.
 Print Assumptions C01_argument_and_tags_travel.
 Print Assumptions C01_reply_frames_whole.
 Print Assumptions C01_generated_ok.
+Print Assumptions C01_never_invoked_twice.
+Print Assumptions C01_invocation_has_request.
+Print Assumptions C01_invoked_exactly_once.
+Print Assumptions C01_handoff_serves_unless_stopped.
+Print Assumptions C01_written_at_most_once.
+Print Assumptions C01_ok_means_written_once.
+Print Assumptions C01_unhanded_writes_nothing.
+Print Assumptions C01_reply_can_complete.
+Print Assumptions C01_writer_alive_until_closed.
